@@ -227,7 +227,7 @@ func ensureCritical(value any, headers map[any]any) error {
 		if !canInt(label) && !canTstr(label) {
 			return fmt.Errorf("require int / tstr type, got '%T': %v", label, label)
 		}
-		if _, ok := headers[label]; !ok {
+		if !hasLabel(headers, label) {
 			return fmt.Errorf("missing critical header: %v", label)
 		}
 	}
@@ -502,8 +502,29 @@ func (h *Headers) ensureIV() error {
 
 // hasLabel returns true if h contains label.
 func hasLabel(h map[any]any, label any) bool {
-	_, ok := h[label]
+	_, ok := lookupLabel(h, label)
 	return ok
+}
+
+// lookupLabel returns the value of label in h, regardless of the Go integer
+// type used to spell the label.
+func lookupLabel(h map[any]any, label any) (any, bool) {
+	if v, ok := h[label]; ok {
+		return v, true
+	}
+	want, ok := normalizeLabel(label)
+	if !ok {
+		return nil, false
+	}
+	if _, isInt := want.(int64); !isInt {
+		return nil, false
+	}
+	for k, v := range h {
+		if got, ok := normalizeLabel(k); ok && got == want {
+			return v, true
+		}
+	}
+	return nil, false
 }
 
 // validateHeaderParameters validates all headers conform to the spec.
